@@ -392,6 +392,22 @@ def _path_exists_in_attrset(target_set: AttributeSet, segments: list[str]) -> bo
     return False
 
 
+def _find_attrpath_family(
+    target_set: AttributeSet, segments: list[str]
+) -> tuple[AttributeSet, Binding, list[str]] | None:
+    """Follow explicitly written nested sets down to the set that holds the rest of the path in attrpath form."""
+    current = target_set
+    for index, segment in enumerate(segments):
+        root = _find_attrpath_root(current, segment)
+        if root is not None:
+            return current, root, segments[index:]
+        binding = _find_named_binding(current.values, segment, nested=False)
+        if binding is None or not isinstance(binding.value, AttributeSet):
+            return None
+        current = binding.value
+    return None
+
+
 def _walk_attrpath_stack(
     target_set: AttributeSet,
     segments: list[str],
@@ -630,6 +646,19 @@ def _set_value_in_attrset(
         _set_attrpath_value(target_set, attrpath_root, segments, value_expr)
         return
 
+    family = _find_attrpath_family(target_set, segments)
+    if family is not None:
+        # the rest of the path is written in attrpath form inside a nested set
+        family_set, family_root, rest = family
+        if len(rest) == 1:
+            raise ValueError(f"Cannot overwrite attrpath-derived binding: {rest[0]}")
+        family_leaf = _find_attrpath_leaf(family_set, rest)
+        if family_leaf is not None:
+            family_leaf.value = value_expr
+            return
+        _set_attrpath_value(family_set, family_root, rest, value_expr)
+        return
+
     try:
         parent_set, final_key = _resolve_npath_parent(
             target_set, npath, create_missing=True
@@ -697,6 +726,15 @@ def _remove_value_in_attrset(target_set: AttributeSet, npath: str) -> None:
 
     if attrpath_root is not None:
         _remove_attrpath_value(target_set, segments)
+        return
+
+    family = _find_attrpath_family(target_set, segments)
+    if family is not None:
+        # the rest of the path is written in attrpath form inside a nested set
+        family_set, _, rest = family
+        if len(rest) == 1:
+            raise KeyError(rest[0])
+        _remove_attrpath_value(family_set, rest)
         return
 
     parent_set, final_key = _resolve_npath_parent(
@@ -941,27 +979,5 @@ def remove_value(source: NixSourceCode, npath: str) -> str:
         return rebuilt
 
     resolution = _resolve_npath(source, npath)
-    target_set = resolution.target_set
-    segments = resolution.segments
-    if resolution.attrpath_leaf is not None:
-        _remove_attrpath_value(target_set, segments)
-        return source.rebuild()
-    if len(segments) == 1:
-        key = segments[0]
-        if resolution.attrpath_root is not None:
-            raise KeyError(key)
-        binding = _find_binding(target_set, key)
-        if binding is None:
-            raise KeyError(key)
-        del target_set[key]
-        return source.rebuild()
-    if resolution.attrpath_root is not None:
-        _remove_attrpath_value(target_set, segments)
-        return (
-            source.rebuild()
-        )  # pragma: no cover - attrpath branch covered in other tests
-    parent_set, final_key = _resolve_npath_parent(
-        target_set, npath, create_missing=False
-    )
-    del parent_set[final_key]
+    _remove_value_in_attrset(resolution.target_set, npath)
     return source.rebuild()
